@@ -400,6 +400,16 @@ impl Circuit {
     }
 
     pub fn reset<C>(&mut self, config: &CircuitBreakerConfig<C>) {
+        if self.state == CircuitState::Closed {
+            // transition_to() is a no-op when the state does not change, but a reset
+            // must still empty the window.
+            self.success_count = 0;
+            self.failure_count = 0;
+            self.total_count = 0;
+            self.slow_call_count = 0;
+            self.call_records.clear();
+            return;
+        }
         self.transition_to(CircuitState::Closed, config);
     }
 
